@@ -26,3 +26,12 @@ for m in re.finditer(r"^def (\w+) : ([^\n]*?) := (.*?)(?=^def |^end )", g, flags
 out.append("end OG.C09.Facts\n")
 open(facts, "w").write("\n".join(out))
 print("rewrote", facts, "with", len(out) - 2, "data expectations")
+# keep the list of audited fact theorems in props/C09.json in step
+import json
+pp = os.path.join(root, "props/C09.json")
+if os.path.exists(pp):
+    cfg = json.load(open(pp))
+    names = re.findall(r"^theorem (\w+)", open(facts).read(), flags=re.M)
+    cfg["theorems"]["OG.C09.Facts"] = ["OG.C09.Facts." + n for n in names]
+    json.dump(cfg, open(pp, "w"), indent=1)
+    print("props/C09.json lists", len(names), "fact theorems")
